@@ -52,6 +52,7 @@ struct HistEngine : Engine {
 		p["knobs"] = knobs;
 		DocOpts dopt; dopt.images = true;
 		if (w.chance(1, 4)) dopt.emails = false;                  // swarm
+		else if (w.chance(1, 3)) dopt.email_heavy = true;
 		int ndocs = (int)w.range(1, 6);
 		Json docs = Json::array();
 		for (int i = 0; i < ndocs; i++) docs.push(pick_doc(w, dopt));
